@@ -9,6 +9,23 @@ sys.path.insert(0, os.path.dirname(__file__))
 from common import build_rare, Rand
 
 OOM_WITNESS = '{@reduce {@range 0 40} "{0}{0}"}'
+# nesting depth d costs Compile (and the formula parser of {! …}) time and memory quadratic in d: every level
+# re-scans its whole argument text as a fresh []rune / token list while all enclosing levels stay live
+NEST_WITNESS = "{coalesce " * 4000 + "x" + "}" * 4000
+NEST_MATH_WITNESS = "{! " + "(" * 25000 + "1" + ")" * 25000 + "}"
+
+
+def deep_family():
+    """Templates at depths the quadratic cost still allows (they must simply return): nested calls, braces,
+    unterminated openers, formulas with deep parentheses / long operator chains / unary runs, long argument lists."""
+    out = []
+    for d in (50, 300, 1000):
+        out += ["{coalesce " * d + "x" + "}" * d, "{if 1 " * d + "{0}" + "}" * d, "{@len " * d + "{0}" + "}" * d,
+                "{! " + "(" * d + "[0]" + ")" * d + "}", "{! " + "-" * d + "1}", "{! " + "abs(" * d + "1" + ")" * d + "}"]
+    for d in (1000, 25000):  # one argv entry holds at most 128 KiB
+        out += ["{" * d + "0" + "}" * d, "{" * d, "}" * d, "{! 1" + "+1" * d + "}", "{coalesce" + " {0}" * d + "}", "a{0}" * d,
+                "{coalesce " + "\"" * d + "}", "\\" * d, "{sumi 1 " + "2" * d + "}"]
+    return out
 
 
 def limited(cmd, mem_mb=1500, timeout=60):
@@ -67,6 +84,7 @@ def run(ctx):
                '{buckettime x nanos auto local}', '{buckettime "2016-02-30T00:00:00Z" d}', '{duration 9223372036854775807ns}',
                '{durationformat -9223372036854775808}', '{time now a b c}', '{time live}{time delta}', '{timeformat {time now} "__2 002 Z07:00:00"}']
     hostile += guard_family(ctx)
+    hostile += deep_family()
     for e in hostile:
         rc, out, err = limited([exe, "expression", "-d", "x", "-d", "-7", e], timeout=30)
         runs += 1
@@ -82,5 +100,18 @@ def run(ctx):
         violations.append({"key": "oom-accumulator", "kind": "resource-exhaustion", "expression": OOM_WITNESS, "exit": rc, "stderr": txt[max(i - 120, 0):i + 200]})
     else:
         known.append("NOTE stale: the recorded out-of-memory witness no longer fails")
+    stale = True
+    for w in (NEST_WITNESS, NEST_MATH_WITNESS):
+        rc, out, err = limited([exe, "expression", w], mem_mb=1000, timeout=60)
+        runs += 1
+        txt = err.decode("utf8", "replace")
+        if rc == "timeout" or "out of memory" in txt or "fatal error" in txt or (isinstance(rc, int) and rc < 0):
+            i = max(txt.find("fatal error"), 0)
+            violations.append({"key": "quadratic-nesting", "kind": "resource-exhaustion", "expression": w[:60] + " … (%d bytes)" % len(w), "exit": rc,
+                               "stderr": txt[max(i - 120, 0):i + 200]})
+            stale = False
+            break
+    if stale:
+        known.append("NOTE stale: the recorded deep-nesting witnesses no longer exhaust memory")
     return {"runs": runs, "violations": violations, "known": known,
             "assumptions": ["memory is finite: the theorems show panic-freedom and termination of the model, not bounded output size"]}
